@@ -131,12 +131,16 @@ def _flip_circshift(run, M):
               "flip does not reverse exactly the axes in _normalize_axes(axes, ndim): %s" % [(cond_text(o.conds)[:60], _show(o.ret)) for o in outs[:2]], stmt="X3:flip")
     f = M.func("sigpy.util.circshift")
     vn = VN(M, f, loop_hook=unroll_loop)
-    outs = [o for o in vn.run(f.body, State({"axes": (S("a0"), S("a1")), "shifts": (S("s0"), S("s1"))})) if o.status == "return"]
     want = "call:numpy.roll(call:numpy.roll(input, s0, kw:axis(a0)), s1, kw:axis(a1))"
-    got = T.show(outs[0].ret, 300) if len(outs) == 1 and isinstance(outs[0].ret, T.Poly) else ""
+    try:
+        outs = [o for o in vn.run(f.body, State({"axes": (S("a0"), S("a1")), "shifts": (S("s0"), S("s1"))})) if o.status == "return"]
+        got = T.show(outs[0].ret, 300) if len(outs) == 1 and isinstance(outs[0].ret, T.Poly) else ""
+    except Unrecognised as e:
+        # the listed axes reach the loop through something other than themselves (e.g. a sort): the pairing with `shifts` is not kept
+        got = "a loop over something other than the listed axes (%s)" % e
     run.check(got == want, "X3", "sigpy.util.circshift", f.loc(), "rolls shift k along axis k for every pair",
               "circshift over (a0, a1), (s0, s1) computes %s; expected roll(roll(input, s0, axis=a0), s1, axis=a1)" % (got or "several paths"), stmt="X3:circshift")
-    vn2 = VN(M, f, loop_hook=unroll_loop)
+    vn2 = VN(M, f, loop_hook=unroll_loop, inline={"sigpy.util._normalize_axes"})
     orig2 = vn2.ev_Attribute
 
     def ev_attr2(e, st):
@@ -144,11 +148,26 @@ def _flip_circshift(run, M):
             return T.const(2)
         return orig2(e, st)
     vn2.ev_Attribute = ev_attr2
-    outs = [o for o in vn2.run(f.body, State({"axes": NONE, "shifts": (S("s0"), S("s1"))})) if o.status == "return"]
     want = "call:numpy.roll(call:numpy.roll(input, s0, kw:axis(0)), s1, kw:axis(1))"
-    got = T.show(outs[0].ret, 300) if len(outs) == 1 and isinstance(outs[0].ret, T.Poly) else ""
+    try:
+        outs = [o for o in vn2.run(f.body, State({"axes": NONE, "shifts": (S("s0"), S("s1"))})) if o.status == "return"]
+        got = T.show(outs[0].ret, 300) if len(outs) == 1 and isinstance(outs[0].ret, T.Poly) else ""
+    except Unrecognised as e:
+        got = "something this rule cannot read (%s)" % e
     run.check(got == want, "X3", "sigpy.util.circshift axes=None", f.loc(), "axes=None means all axes in order",
               "circshift(axes=None) on a rank-2 input computes %s; expected roll(roll(input, s0, axis=0), s1, axis=1)" % (got or "several paths"), stmt="X3:circshift-none")
+    # axes listed out of order: shift k still belongs to the k-th *listed* axis
+    vn3 = VN(M, f, loop_hook=unroll_loop, inline={"sigpy.util._normalize_axes"})
+    vn3.ev_Attribute = lambda e, st, _o=vn3.ev_Attribute: T.const(2) if (e.attr == "ndim" and isinstance(e.value, ast.Name) and e.value.id == "input") else _o(e, st)
+    want = "call:numpy.roll(call:numpy.roll(input, s0, kw:axis(1)), s1, kw:axis(0))"
+    try:
+        outs = [o for o in vn3.run(f.body, State({"axes": (T.const(1), T.const(0)), "shifts": (S("s0"), S("s1"))})) if o.status == "return"]
+        got = T.show(outs[0].ret, 300) if len(outs) == 1 and isinstance(outs[0].ret, T.Poly) else "several paths"
+    except Unrecognised as e:
+        got = "something this rule cannot read (%s)" % e
+    run.check(got == want, "X3", "sigpy.util.circshift axes=(1, 0)", f.loc(), "axes given out of order keep their own shifts",
+              "circshift(input, (s0, s1), axes=(1, 0)) on a rank-2 input computes %s; expected roll(roll(input, s0, axis=1), s1, axis=0): the k-th shift belongs to "
+              "the k-th listed axis" % got, stmt="X3:circshift-order")
 
 
 def _shapes(run, M):
